@@ -131,6 +131,25 @@ NOTES.update({
     "C20_s": "class components were built for nobody (agent None): built for the class they are first attached to, as the library's tests do",
     "C20_t": "class components were always truthy: type Q is an empty container",
 })
+NOTES.update({
+    "C01_u": "priorities of ordinary size: whole histories shifted by 2^62, -2^62, 2^53 or close to sys.maxsize (same order, neighbouring integers no longer distinct as floats)",
+    "C03_u": "populations of at most eight: a crowd of 14 carriers whose listing grows beyond ten entries, shrinks to a handful and grows again",
+    "C07_u": "the other model stepped in between lived in the same kind of world: it lives in a line world next to grid models (and in a grid world otherwise)",
+    "C07_v": "one batch per session: a second study in worker processes after the program changed a module-level setting (KNOB), compared with an in-process run",
+    "C08_u": "a step, an absolute move and the very same step again were rare: generated as a pattern",
+    "C09_u": "generators returned values of one kind: an int at the first cell, n + 0.5 elsewhere",
+    "C09_v": "NOT detected - outside the statement (needs a generator whose answer depends on how often it has been called before; the statement ties a cell's value to the generator's value for that cell's coordinates)",
+    "C11_u": "lookup tables were nested lists: numpy tables whose axes were rearranged so that x comes first (transposed views)",
+    "C13_u": "few leaves between unfiltered picks: heavy-turnover histories with unfiltered picks and shuffles",
+    "C14_u": "elements of collections were scalars: tuples as elements (must stay tuples), numbers of mixed types",
+    "C15_u": "batches of one program ran under one setting: a module-level setting that is part of every run's signature changes between the batches of a program",
+    "C15_v": "integer parameter values: numbers of mixed types and tuples (the fixture recomputes a type-and-value code from what it receives)",
+    "C16_u": "NOT detected - below the resolution of the specification (aggregates of float scores are compared to 1e-9 relative; `fmean` differs from the correctly rounded mean by one unit in the last place, which only shows as a broken tie between means of decimal fractions that are equal as reals)",
+    "C16_v": "no parameter named seed in the grids: some grids seed their models",
+    "C18_u": "the hook names stayed bound to the same function objects: every decode binds fresh function objects under the hook names and counts calls that reach an older one",
+    "C19_u": "no tags named after builtins that the module itself uses (`enumerate`, `str`, `len`, ...)",
+    "C19_v": "names that resolve on the library CLASS were not looked up on the global library: only what the module object itself resolves is skipped now",
+})
 ROUNDS = "abcdefghijklmnopqrstuvwxyz"
 
 
@@ -154,7 +173,7 @@ def main():
     total = len(rows)
     own = sum(1 for r in rows if r.split(" | ")[3] not in ("MISSED",) and r.split(" | ")[3].split(",")[0] == r.split(" | ")[0][2:5])
     names = {r.split(" | ")[0][2:] for r in rows}
-    outside = sum(1 for k, n in NOTES.items() if k in names and n.startswith("NOT detected - outside"))
+    outside = sum(1 for k, n in NOTES.items() if k in names and (n.startswith("NOT detected - outside") or n.startswith("NOT detected - below")))
     other = total - own - outside
     firsts = {}
     for d in sorted(glob.glob(os.path.join(VERIF, "seeded", "*", ""))):
@@ -167,14 +186,14 @@ def main():
         firsts[rnd] = firsts.get(rnd, 0) + (1 if missed else 0)
     head = ("\n### 11.5 Independently seeded changes (`/verif/seeded/<id>/`)\n\n"
             f"{total} changes were produced in {max(firsts)} rounds by fresh sub-agents that saw only the text of one property and a scratch worktree "
-            "(two per property and round; ids `_a`,`_b` = round 1, `_c`,`_d` = round 2, `_e`,`_f` = round 3, `_g`,`_h` = round 4, `_i`,`_j` = round 5, `_k`,`_l` = round 6, `_m`,`_n` = round 7, `_o`,`_p` = round 8, `_q`,`_r` = round 9, `_s`,`_t` = round 10; the agents of later rounds were told "
+            "(two per property and round; ids `_a`,`_b` = round 1, `_c`,`_d` = round 2, `_e`,`_f` = round 3, `_g`,`_h` = round 4, `_i`,`_j` = round 5, `_k`,`_l` = round 6, `_m`,`_n` = round 7, `_o`,`_p` = round 8, `_q`,`_r` = round 9, `_s`,`_t` = round 10, `_u`,`_v` = round 11; the agents of later rounds were told "
             "what the earlier rounds had produced and asked for something different; round 4 was asked to stay strictly inside the quantifier text, "
-            "round 5 to look for the least obvious failure, round 6 to prefer code no earlier change had touched, round 7 to look for interactions of two features and boundary values, round 8 to write refactorings and small features that drop something the old code did implicitly, round 9 to start from a realistic user model, round 10 to look at life cycles, rejected operations, returned objects and defaults). Each passes the 110 tests, and its demonstration fails with the change and passes without it "
+            "round 5 to look for the least obvious failure, round 6 to prefer code no earlier change had touched, round 7 to look for interactions of two features and boundary values, round 8 to write refactorings and small features that drop something the old code did implicitly, round 9 to start from a realistic user model, round 10 to look at life cycles, rejected operations, returned objects and defaults, round 11 to write performance optimisations). Each passes the 110 tests, and its demonstration fails with the change and passes without it "
             "(re-confirmed by `tools/seedcheck.py import`). `tools/seedcheck.py run` applies a patch to `/repo`, runs the property's quick check "
             "and undoes it (`git checkout -- .`); `run --scratch` does the same on a scratch copy (`VERIF_REPO`) so that runs can go in parallel. "
             f"**{own} of the {total} are detected by the quick check of their own property** (`result_quick.json`, current checks), {other} by the check of the "
             f"property whose defect class it is (`C17_j` by C04, `C07_r` by C18); the {outside} that are not detected need a "
-            "situation outside the property's quantifier and are marked in the table. "
+            "situation outside the property's quantifier (one is below the numeric resolution of the specification) and are marked in the table. "
             "The checks as they stood when a round arrived missed " + ", ".join(f"{firsts[r]} of round {r}" for r in sorted(firsts)) + " (`result_first.json`); each miss was a gap in what the *drivers* "
             "exercised, closed as noted - the specifications' obligations were not changed for any of them and no check was loosened. "
             "Two patches (`C05_b`, `C05_c`) were re-based onto the hook commit (`patch_before_hook.diff` keeps the original).\n\n"
